@@ -5,6 +5,11 @@ import Vata.DownCert
 import Vata.Proofs.InclUp
 import Vata.Proofs.InclUpTotal
 import Vata.Proofs.Sanitize
+import Vata.Proofs.SimModel
+import Vata.Proofs.InclDown
+import Vata.Proofs.InclDownInv
+import Vata.Proofs.InclDownTotal
+import Vata.Properties.Dispatch
 /-!
 # C01 – Explicit tree-automata inclusion is exact under every algorithm selection
 
@@ -23,18 +28,40 @@ import Vata.Proofs.Sanitize
   the older two-automata version `inclRef` (`Vata/Basic.lean`).  They are what the verdicts of *all eight* parameter
   selections of the real `CheckInclusion` are compared with; `C01_reference_exact` says that every verdict of the
   reference is the truth, so a disagreement of any selection with it is a failing input.
-* **Model of the code.**  `checkInclUp A B fuel` (`Vata/InclUp.lean`) mirrors `CheckInclusion` for the selection
+* **Model of the code, upward.**  `checkInclUp A B fuel` (`Vata/InclUp.lean`) mirrors `CheckInclusion` for the selection
   *upward, no simulation*: `SanitizeAutsForInclusion` (= `removeUseless` on both operands) followed by the work-list /
   antichain exploration `InclUp.run` of `ExplicitUpwardInclusion::checkInternal`; `inclUp` is the exploration alone (on
   operands the caller has trimmed).  `none` means "fuel exhausted / internal check failed", it is never a verdict.
+* **Models of the code, downward** (`Vata/InclDown.lean`).  `InclDown.run o A B fuel` mirrors the recursive algorithm
+  (`CheckDownwardTreeInclusion` with `DownwardInclusionFunctor::expand`: work-set, `childrenCache`, the antichain
+  `nonincluded`, phase 1 "a positionwise bigger tuple", then the choice functions), `InclDown.runN o A B fuel` the
+  non-recursive one (`ExplicitDownwardInclusion::expand`, the call emulator rendered by recursion with the same order of
+  tests and the same caching discipline).  Both are parametrised by a preorder `o : InclDown.Ord` used for pruning;
+  `idOrd` gives the `NOSIM` selections, `ordOf R A B` the `SIM` selections for a relation `R` on the disjoint union.
+  Every run ends *certify-then-trust*: `true` is returned only with the collected set `X` of pairs after the Boolean check
+  `downCertB` / `downCertRB` (the hypotheses of `down_cert_incl` / `down_certR_incl`), `false` only with a tree after the
+  check `accepts A w && !accepts B w`.  The verdict functions are `inclDownRec`, `inclDownNonrec`, `inclDownSim`,
+  `inclDownNonrecSim` (the exploration on operands the caller has prepared; the `Sim` variants first *validate* the given
+  relation: `isDownSimB (unionDisjoint A B) R` and disjoint operands, otherwise `none`) and `checkInclDownRec`,
+  `checkInclDownNonrec` (= `CheckInclusion`: `removeUseless` on both operands first).  `inclDownOpt`
+  (`OptDownwardInclusionFunctor`, the "implication cache") is *by definition* the same function as `inclDownRec`: in the
+  C++ the extra cache `incl_` is never filled (argument in the header of `Vata/InclDown.lean`).  Fuel = nesting depth
+  of the calls.
 * **Preparation of the operands.**  `sanitize A B` (`Vata/Sanitize.lean`) is `SanitizeAutsForInclusion` in full:
   `removeUseless` on both operands, then `ReindexStates` of both through weak translators that share ONE counter (the map
   is cleared between the operands); it returns the two prepared automata and the counter.  `checkInclUpSan` runs the
-  exploration `inclUp` on these (trimmed AND renumbered) operands.
-* **Certificate principles.**  `UpCert` / `DownCert` are the invariants on which the upward antichain algorithm and the
-  downward (non-recursive and recursive, with or without cache) algorithms rest: whatever search produces a set `X` of
-  pairs with these closure properties has established inclusion.  They are the part of the downward selections that is
-  proved; the downward explorations themselves are not modelled (see the end of the file).
+  exploration `inclUp` on these (trimmed AND renumbered) operands; `C01_downward_prepared_exact` runs the four downward
+  explorations on them, the `Sim` ones with the greatest downward simulation `downSimRef` of their disjoint union (the
+  relation of C04) – "a simulation preorder computed on the disjoint union of the prepared operands".
+* **Certificate principles.**  `UpCert` / `DownCert` (and `DownCertR`: modulo language preorders) are the invariants on
+  which the upward antichain algorithm and the downward algorithms rest: whatever search produces a set `X` of pairs with
+  these closure properties has established inclusion.
+* **Dispatch.**  `Vata.Gen.explDispatch` (`Vata/Generated/Tables.lean`) is the `switch (params.GetOptions())` of
+  `ExplicitTreeAutCore::CheckInclusion`, regenerated from the C++ sources on every run; `Vata/Properties/Dispatch.lean`
+  proves by evaluation which option words are implemented, that every other word throws, and that each case passes the
+  operands / relation its option word announces.  The correspondence "callee `explUp` ↦ `checkInclUp`, `explDownNonrec` ↦
+  `checkInclDownNonrec` / `inclDownNonrecSim`, `downRec` ↦ `checkInclDownRec` / `inclDownOpt` / `inclDownSim`" is the
+  reading of the table, not a theorem.
 -/
 namespace Vata.Props
 open Vata Vata.InclUp
@@ -189,17 +216,317 @@ theorem C01_upward_sanitised_exact (A B : TA) :
 example : ∃ c, checkInclUpSan SanEx.exA SanEx.exB 20 = some (true, c) := ⟨_, rfl⟩
 example : ∃ c, checkInclUpSan SanEx.exB SanEx.exA 20 = some (false, c) := ⟨_, rfl⟩
 
+/-! ### the downward selections: models of the code, exact and total -/
+
+/-- selection "downward, recursive, no simulation" (`ANTICHAINS_DOWN_REC_NOSIM`): the model `checkInclDownRec` of
+`CheckInclusion` (arbitrary operands, useless states removed first): every verdict is exact, and a verdict is returned for
+every fuel above the explicit bound `|Q_A'|·2^|Q_B'|` on the nesting depth of the calls -/
+theorem C01_downward_rec_model_exact (A B : TA) :
+    (∀ fuel b c, checkInclDownRec A B fuel = some (b, c) → (b = true ↔ Incl A B)) ∧
+    (∀ fuel, InclDown.fuelBoundD (removeUseless A) (removeUseless B) < fuel →
+      (Incl A B → ∃ c, checkInclDownRec A B fuel = some (true, c)) ∧
+      (¬ Incl A B → ∃ c, checkInclDownRec A B fuel = some (false, c))) :=
+  ⟨fun _ _ _ h => checkInclDownRec_iff h, fun _ hf => checkInclDownRec_complete A B hf⟩
+
+-- the first operand has the useless rule `h(7) → 1`; both verdicts occur
+example : ∃ c, checkInclDownRec InclDownEx.exUs InclDownEx.exA 10 = some (true, c) := ⟨_, rfl⟩
+example : ∃ c, checkInclDownRec InclDownEx.exG InclDownEx.exH 10 = some (false, c) := ⟨_, rfl⟩
+example : InclDown.fuelBoundD (removeUseless InclDownEx.exG) (removeUseless InclDownEx.exH) < 17 := by decide
+
+/-- selection "downward, non-recursive, no simulation" (`ANTICHAINS_DOWN_NONREC_NOSIM`), model `checkInclDownNonrec` -/
+theorem C01_downward_nonrec_model_exact (A B : TA) :
+    (∀ fuel b c, checkInclDownNonrec A B fuel = some (b, c) → (b = true ↔ Incl A B)) ∧
+    (∀ fuel, InclDown.fuelBoundD (removeUseless A) (removeUseless B) < fuel →
+      (Incl A B → ∃ c, checkInclDownNonrec A B fuel = some (true, c)) ∧
+      (¬ Incl A B → ∃ c, checkInclDownNonrec A B fuel = some (false, c))) :=
+  ⟨fun _ _ _ h => checkInclDownNonrec_iff h, fun _ hf => checkInclDownNonrec_complete A B hf⟩
+
+example : ∃ c, checkInclDownNonrec InclDownEx.exUs InclDownEx.exA 10 = some (true, c) := ⟨_, rfl⟩
+example : ∃ c, checkInclDownNonrec InclDownEx.exU1 InclDownEx.exU2 10 = some (false, c) := ⟨_, rfl⟩
+
+/-- "recursive with or without the implication cache": the model of `OptDownwardInclusionFunctor` IS the model of
+`DownwardInclusionFunctor` (first component, by definition – the justification is the argument about the C++ in
+`Vata/InclDown.lean`, not a theorem); hence its verdicts are exact as well -/
+theorem C01_downward_cache_same_computation (A B : TA) (fuel : Nat) :
+    inclDownOpt A B fuel = inclDownRec A B fuel ∧
+    (∀ b c, inclDownOpt A B fuel = some (b, c) → (b = true ↔ Incl A B)) :=
+  ⟨rfl, fun _ _ h => inclDownOpt_iff h⟩
+
+example : ∃ c, inclDownOpt InclDownEx.exG InclDownEx.exH 10 = some (false, c) := ⟨_, rfl⟩
+
+/-- the two downward explorations alone (no simulation): every verdict is exact on *any* operands; they are total (and
+then right) when the children of all rules of `A` are productive – the hypothesis is needed, because the code skips an
+empty set of a choice function, which is only justified when the state at that position accepts some tree
+(`InclDownEx.exUs` is a counterexample to totality without it, see below) -/
+theorem C01_downward_core_exact (A B : TA) :
+    (∀ fuel b c, inclDownRec A B fuel = some (b, c) → (b = true ↔ Incl A B)) ∧
+    (∀ fuel b c, inclDownNonrec A B fuel = some (b, c) → (b = true ↔ Incl A B)) ∧
+    (InclDown.KidsProductive A → ∀ fuel, InclDown.fuelBoundD A B < fuel →
+      ((Incl A B → ∃ c, inclDownRec A B fuel = some (true, c)) ∧
+        (¬ Incl A B → ∃ c, inclDownRec A B fuel = some (false, c))) ∧
+      ((Incl A B → ∃ c, inclDownNonrec A B fuel = some (true, c)) ∧
+        (¬ Incl A B → ∃ c, inclDownNonrec A B fuel = some (false, c)))) :=
+  ⟨fun _ _ _ h => inclDownRec_iff h, fun _ _ _ h => inclDownNonrec_iff h,
+    fun hA _ hf => ⟨inclDownRec_complete hA hf, inclDownNonrec_complete hA hf⟩⟩
+
+example : InclDown.KidsProductive InclDownEx.exG ∧ InclDown.fuelBoundD InclDownEx.exG InclDownEx.exH < 17 :=
+  ⟨(trimmed_of_allUsefulB (by decide)).1, by decide⟩
+-- without the hypothesis: the exploration answers `false` with a tree `A` does not accept, the model refuses
+example : inclDownRec InclDownEx.exUs InclDownEx.exA 10 = none ∧
+    InclDown.run InclDown.idOrd InclDownEx.exUs InclDownEx.exA 10 = some (.error (.node 3 [.node 0 []])) ∧
+    accepts InclDownEx.exUs (.node 3 [.node 0 []]) = false := ⟨rfl, rfl, by decide⟩
+
+/-- what a verdict of the recursive model carries: `true` comes with a set of pairs that is a downward certificate
+covering the final states, `false` with a tree accepted by `A` and rejected by `B` -/
+theorem C01_downward_verdict_certified (A B : TA) (fuel : Nat) (b : Bool) (c : Cert)
+    (h : inclDownRec A B fuel = some (b, c)) :
+    match c with
+    | .closed X => b = true ∧ DownCert A B X ∧ ∀ f, f ∈ A.final → Sub X f B.final
+    | .witness w => b = false ∧ accepts A w = true ∧ accepts B w = false := inclDownRec_cert h
+
+example : inclDownRec InclDownEx.exS1 InclDownEx.exS2 10 = some (true, .closed [(1, [3, 4]), (5, [6]), (2, [9])]) := rfl
+
+/-- the explorations proper (no final check involved), for any pruning preorder `o` that is reflexive and sound for the
+languages of the states (`LangOrd`), on an `A` whose rule children are productive: the set collected by a `return true`
+of the recursive exploration passes the certificate check, the tree of a `return false` separates the languages, and the
+exploration ends within the bound; the same for the non-recursive exploration when `o` is moreover transitive.  So the
+final checks of the models never refuse: `none` means "fuel exhausted" only -/
+theorem C01_downward_exploration_certified (o : InclDown.Ord) (A B : TA)
+    (hO : LangOrd A B (InclDown.leAP o) (InclDown.leBP o) (InclDown.leABP o)) (hr : InclDown.OrdRefl o)
+    (hA : InclDown.KidsProductive A) (fuel : Nat) :
+    ((∀ X, InclDown.run o A B fuel = some (.ok X) → downCertRB o A B X = true) ∧
+      (∀ w, InclDown.run o A B fuel = some (.error w) → accepts A w = true ∧ accepts B w = false) ∧
+      (InclDown.fuelBoundD A B < fuel → ∃ r, InclDown.run o A B fuel = some r)) ∧
+    (InclDown.OrdTrans o →
+      (∀ X, InclDown.runN o A B fuel = some (.ok X) → downCertRB o A B X = true) ∧
+      (∀ w, InclDown.runN o A B fuel = some (.error w) → accepts A w = true ∧ accepts B w = false) ∧
+      (InclDown.fuelBoundD A B < fuel → ∃ r, InclDown.runN o A B fuel = some r)) :=
+  ⟨⟨fun _ h => InclDown.run_ok_cert hO hr hA h, fun _ h => InclDown.run_error_sound hO hr hA h,
+      fun h => InclDown.run_terminates hr h⟩,
+    fun ht => ⟨fun _ h => InclDown.runN_ok_cert hO hr ht hA h, fun _ h => InclDown.runN_error_sound hO hr ht hA h,
+      fun h => InclDown.runN_terminates hr h⟩⟩
+
+-- the hypotheses hold for the identity on trimmed operands and for a validated simulation
+example : LangOrd InclDownEx.exH InclDownEx.exG (InclDown.leAP InclDown.idOrd) (InclDown.leBP InclDown.idOrd)
+      (InclDown.leABP InclDown.idOrd) ∧ InclDown.OrdRefl InclDown.idOrd ∧ InclDown.OrdTrans InclDown.idOrd ∧
+    InclDown.KidsProductive InclDownEx.exH :=
+  ⟨InclDown.idOrd_langOrd _ _, InclDown.ordRefl_id, InclDown.ordTrans_id, (trimmed_of_allUsefulB (by decide)).1⟩
+example : InclDown.run InclDown.idOrd InclDownEx.exH InclDownEx.exG 10 = some (.ok [(3, [1]), (4, [1]), (9, [2])]) := rfl
+example : LangOrd InclDownEx.exS1 InclDownEx.exS2 (InclDown.leAP (InclDown.ordOf [(5, 6)] InclDownEx.exS1 InclDownEx.exS2))
+    (InclDown.leBP (InclDown.ordOf [(5, 6)] InclDownEx.exS1 InclDownEx.exS2))
+    (InclDown.leABP (InclDown.ordOf [(5, 6)] InclDownEx.exS1 InclDownEx.exS2)) :=
+  InclDown.ordOf_langOrd (by decide) (by decide)
+
+/-- the Boolean checker the models apply to the collected sets is exactly the downward certificate, and a checked set
+proves the inclusion -/
+theorem C01_downward_certificate_check (A B : TA) (X : List (Nat × List Nat)) :
+    (downCertB A B X = true ↔ DownCert A B X ∧ ∀ f, f ∈ A.final → Sub X f B.final) ∧
+    (downCertB A B X = true → Incl A B) :=
+  ⟨downCertB_iff A B X, fun h => downCertB_incl h⟩
+
+example : downCertB InclDownEx.exH InclDownEx.exG [(3, [1]), (4, [1]), (9, [2])] = true ∧
+    downCertB InclDownEx.exH InclDownEx.exG [(9, [2])] = false := by decide
+
+/-! ### the downward selections with a simulation preorder -/
+
+/-- soundness of pruning modulo preorders: relations `RA` (on `A`), `RB` (on `B`), `RAB` (from `A` to `B`) that are
+sound for the languages of the states (`LangOrd`), and a set `X` of pairs closed under the choice-function expansion
+*up to* these relations (`DownCertR`, `SubR`: the pair is implied by the preorder, or a pair `(k', S')` of `X` has
+`k ≤ k'` and every state of `S'` below a state of `S`) that covers the final states: inclusion holds -/
+theorem C01_certificates_modulo_preorder (A B : TA) (RA RB RAB : Nat → Nat → Prop) (hO : LangOrd A B RA RB RAB)
+    (X : List (Nat × List Nat)) (hX : DownCertR RA RB RAB A B X)
+    (hroot : ∀ f, f ∈ A.final → SubR RA RB RAB X f B.final) : Incl A B :=
+  down_certR_incl A B RA RB RAB hO X hX hroot
+
+-- the hypotheses on a concrete pair: the relations given by `5 ≤ 6` and the set `{(1,{3,4}), (2,{9})}`
+example : DownCertR (InclDown.leAP (InclDown.ordOf [(5, 6)] InclDownEx.exS1 InclDownEx.exS2))
+      (InclDown.leBP (InclDown.ordOf [(5, 6)] InclDownEx.exS1 InclDownEx.exS2))
+      (InclDown.leABP (InclDown.ordOf [(5, 6)] InclDownEx.exS1 InclDownEx.exS2)) InclDownEx.exS1 InclDownEx.exS2
+      [(1, [3, 4]), (2, [9])] ∧
+    ∀ f, f ∈ InclDownEx.exS1.final → SubR (InclDown.leAP (InclDown.ordOf [(5, 6)] InclDownEx.exS1 InclDownEx.exS2))
+      (InclDown.leBP (InclDown.ordOf [(5, 6)] InclDownEx.exS1 InclDownEx.exS2))
+      (InclDown.leABP (InclDown.ordOf [(5, 6)] InclDownEx.exS1 InclDownEx.exS2)) [(1, [3, 4]), (2, [9])] f
+      InclDownEx.exS2.final := downCertRB_sound (by decide)
+-- with the pair `5 ≤ 6` the set `{(1,{3,4}), (2,{9})}` is a certificate; with the identity it is not
+example : downCertRB (InclDown.ordOf [(5, 6)] InclDownEx.exS1 InclDownEx.exS2) InclDownEx.exS1 InclDownEx.exS2
+      [(1, [3, 4]), (2, [9])] = true ∧
+    downCertRB InclDown.idOrd InclDownEx.exS1 InclDownEx.exS2 [(1, [3, 4]), (2, [9])] = false := by decide
+
+/-- selections "downward (recursive / non-recursive) with simulation" for a GIVEN relation `R` on the disjoint union:
+the models validate `R` (a downward simulation on `unionDisjoint A B`, the operands disjoint) and then prune with it;
+every verdict is exact on any operands and for any `R`; when the validation passes and the rule children of `A` are
+productive, the recursive model returns the right verdict for every fuel above the bound, and so does the non-recursive
+one if `R` is moreover transitive (it prunes the sets of the choice functions to their maximal elements and caches
+subsumed pairs) -/
+theorem C01_downward_sim_exact (A B : TA) (R : Rel) :
+    (∀ fuel b c, inclDownSim A B R fuel = some (b, c) → (b = true ↔ Incl A B)) ∧
+    (∀ fuel b c, inclDownNonrecSim A B R fuel = some (b, c) → (b = true ↔ Incl A B)) ∧
+    (InclDown.KidsProductive A → isDownSimB (unionDisjoint A B) R = true → InclDown.disjointB A B = true →
+      ∀ fuel, InclDown.fuelBoundD A B < fuel →
+        ((Incl A B → ∃ c, inclDownSim A B R fuel = some (true, c)) ∧
+          (¬ Incl A B → ∃ c, inclDownSim A B R fuel = some (false, c))) ∧
+        ((∀ a b c, (a, b) ∈ R → (b, c) ∈ R → (a, c) ∈ R) →
+          (Incl A B → ∃ c, inclDownNonrecSim A B R fuel = some (true, c)) ∧
+          (¬ Incl A B → ∃ c, inclDownNonrecSim A B R fuel = some (false, c)))) :=
+  ⟨fun _ _ _ h => inclDownSim_iff h, fun _ _ _ h => inclDownNonrecSim_iff h,
+    fun hA hsim hdis _ hf => ⟨inclDownSim_complete hA hsim hdis hf,
+      fun hR => inclDownNonrecSim_complete hA hsim hdis hR hf⟩⟩
+
+example : inclDownSim InclDownEx.exS1 InclDownEx.exS2 [(5, 6)] 10 = some (true, .closed [(1, [3, 4]), (2, [9])]) ∧
+    inclDownNonrecSim InclDownEx.exS1 InclDownEx.exS2 [(5, 6)] 10 = some (true, .closed [(1, [3, 4]), (2, [9])]) :=
+  ⟨rfl, rfl⟩
+example : InclDown.KidsProductive InclDownEx.exS1 ∧ isDownSimB (unionDisjoint InclDownEx.exS1 InclDownEx.exS2) [(5, 6)] = true ∧
+    InclDown.disjointB InclDownEx.exS1 InclDownEx.exS2 = true ∧ InclDown.fuelBoundD InclDownEx.exS1 InclDownEx.exS2 < 49 :=
+  ⟨(trimmed_of_allUsefulB (by decide)).1, by decide, by decide, by decide⟩
+-- a relation that is not a simulation, or operands that overlap, are refused (no verdict)
+example : inclDownSim InclDownEx.exS1 InclDownEx.exS2 [(1, 3)] 10 = none ∧ inclDownSim InclDownEx.exA InclDownEx.exA [] 10 = none :=
+  ⟨rfl, rfl⟩
+
+/-- all four downward explorations on the operands exactly as the code prepares them (`A' = (sanitize A B).1`,
+`B' = (sanitize A B).2.1`: trimmed, renumbered, disjoint), the two `Sim` ones with the simulation preorder computed on the
+disjoint union of the prepared operands (`R` = the greatest downward simulation `downSimRef` of `unionDisjoint A' B'`, the
+relation of C04): no hypothesis is left – the validation of `R` passes, `R` is transitive, the rule children of `A'` are
+productive.  Every verdict is exact for the ORIGINAL question `Incl A B`, and for every fuel above the bound each of the
+four returns the right verdict -/
+theorem C01_downward_prepared_exact (A B A' B' : TA) (R : Rel) (hA' : A' = (sanitize A B).1)
+    (hB' : B' = (sanitize A B).2.1) (hR : R = downSimRef (unionDisjoint A' B')) :
+    (∀ fuel b c, (inclDownRec A' B' fuel = some (b, c) ∨ inclDownNonrec A' B' fuel = some (b, c) ∨
+        inclDownSim A' B' R fuel = some (b, c) ∨ inclDownNonrecSim A' B' R fuel = some (b, c)) → (b = true ↔ Incl A B)) ∧
+    (∀ fuel, InclDown.fuelBoundD A' B' < fuel →
+      (Incl A B → (∃ c, inclDownRec A' B' fuel = some (true, c)) ∧ (∃ c, inclDownNonrec A' B' fuel = some (true, c)) ∧
+        (∃ c, inclDownSim A' B' R fuel = some (true, c)) ∧ (∃ c, inclDownNonrecSim A' B' R fuel = some (true, c))) ∧
+      (¬ Incl A B → (∃ c, inclDownRec A' B' fuel = some (false, c)) ∧ (∃ c, inclDownNonrec A' B' fuel = some (false, c)) ∧
+        (∃ c, inclDownSim A' B' R fuel = some (false, c)) ∧ (∃ c, inclDownNonrecSim A' B' R fuel = some (false, c)))) := by
+  subst hA' hB' hR
+  have hK : InclDown.KidsProductive (sanitize A B).1 := (trimmed_of_allUsefulB (sanitize_trimmed A B).1).1
+  have hsim := downSimRef_check (unionDisjoint (sanitize A B).1 (sanitize A B).2.1)
+  have hdis : InclDown.disjointB (sanitize A B).1 (sanitize A B).2.1 = true :=
+    InclDown.disjointB_iff.mpr (sanitize_disjoint A B)
+  have htr := (greatest_downSim_preorder (unionDisjoint (sanitize A B).1 (sanitize A B).2.1)).2
+  have hq := checkIncl_sanitized A B
+  refine ⟨fun fuel b c h => ?_, fun fuel hf => ?_⟩
+  · rcases h with h | h | h | h
+    · exact (inclDownRec_iff h).trans hq
+    · exact (inclDownNonrec_iff h).trans hq
+    · exact (inclDownSim_iff h).trans hq
+    · exact (inclDownNonrecSim_iff h).trans hq
+  · have h1 := inclDownRec_complete hK hf
+    have h2 := inclDownNonrec_complete hK hf
+    have h3 := inclDownSim_complete hK hsim hdis hf
+    have h4 := inclDownNonrecSim_complete hK hsim hdis htr hf
+    rw [hq] at h1 h2 h3 h4
+    exact ⟨fun hi => ⟨h1.1 hi, h2.1 hi, h3.1 hi, h4.1 hi⟩, fun hn => ⟨h1.2 hn, h2.2 hn, h3.2 hn, h4.2 hn⟩⟩
+
+-- the operands of the example overlap and the first is not trimmed; the prepared ones are `0,1` / `2`; the computed
+-- simulation relates the two states of `A'` to the state of `B'` (and `0` to `1`)
+example : downSimRef (unionDisjoint (sanitize SanEx.exA SanEx.exB).1 (sanitize SanEx.exA SanEx.exB).2.1) =
+    [(1, 1), (1, 2), (0, 0), (0, 2), (2, 2)] := by decide
+example : ∃ c, inclDownSim (sanitize SanEx.exA SanEx.exB).1 (sanitize SanEx.exA SanEx.exB).2.1
+    (downSimRef (unionDisjoint (sanitize SanEx.exA SanEx.exB).1 (sanitize SanEx.exA SanEx.exB).2.1)) 20 = some (true, c) :=
+  ⟨_, rfl⟩
+example : ∃ c, inclDownNonrecSim (sanitize SanEx.exB SanEx.exA).1 (sanitize SanEx.exB SanEx.exA).2.1
+    (downSimRef (unionDisjoint (sanitize SanEx.exB SanEx.exA).1 (sanitize SanEx.exB SanEx.exA).2.1)) 20 = some (false, c) :=
+  ⟨_, rfl⟩
+
+/-! ### "all selections return the same verdict", for the modelled selections -/
+
+/-- any verdicts of the models of the seven modelled selections (upward; downward non-recursive; downward recursive
+without and with the cache functor; downward recursive / non-recursive with a given relation `R`) on the same pair, and
+any verdict of the reference, are equal – whatever the fuels and whatever `R` -/
+theorem C01_modelled_selections_agree (A B : TA) (R : Rel) (f₀ f₁ f₂ f₃ f₄ f₅ f₆ : Nat) (b₀ b₁ b₂ b₃ b₄ b₅ b₆ : Bool)
+    (c₁ c₂ c₃ c₄ c₅ c₆ : Cert)
+    (h₀ : inclM A B f₀ = some b₀)
+    (h₁ : checkInclUp A B f₁ = some (b₁, c₁))
+    (h₂ : checkInclDownNonrec A B f₂ = some (b₂, c₂))
+    (h₃ : checkInclDownRec A B f₃ = some (b₃, c₃))
+    (h₄ : inclDownOpt (removeUseless A) (removeUseless B) f₄ = some (b₄, c₄))
+    (h₅ : inclDownSim A B R f₅ = some (b₅, c₅))
+    (h₆ : inclDownNonrecSim A B R f₆ = some (b₆, c₆)) :
+    b₁ = b₀ ∧ b₂ = b₀ ∧ b₃ = b₀ ∧ b₄ = b₀ ∧ b₅ = b₀ ∧ b₆ = b₀ := by
+  have e₀ := inclM_iff A B f₀ b₀ h₀
+  have e₁ := checkInclUp_iff h₁
+  have e₂ := checkInclDownNonrec_iff h₂
+  have e₃ := checkInclDownRec_iff h₃
+  have e₄ := (inclDownOpt_iff h₄).trans (incl_removeUseless A B)
+  have e₅ := inclDownSim_iff h₅
+  have e₆ := inclDownNonrecSim_iff h₆
+  have key : ∀ b : Bool, (b = true ↔ Incl A B) → b = b₀ := fun b e => by
+    cases b <;> cases b₀ <;> simp_all
+  exact ⟨key _ e₁, key _ e₂, key _ e₃, key _ e₄, key _ e₅, key _ e₆⟩
+
+-- all seven return a verdict on the trimmed, disjoint pair `exS1`, `exS2` with the relation `{(5,6)}`
+example : inclM InclDownEx.exS1 InclDownEx.exS2 10 = some true ∧
+    (checkInclUp InclDownEx.exS1 InclDownEx.exS2 20).map (·.1) = some true ∧
+    (checkInclDownNonrec InclDownEx.exS1 InclDownEx.exS2 10).map (·.1) = some true ∧
+    (checkInclDownRec InclDownEx.exS1 InclDownEx.exS2 10).map (·.1) = some true ∧
+    (inclDownOpt (removeUseless InclDownEx.exS1) (removeUseless InclDownEx.exS2) 10).map (·.1) = some true ∧
+    (inclDownSim InclDownEx.exS1 InclDownEx.exS2 [(5, 6)] 10).map (·.1) = some true ∧
+    (inclDownNonrecSim InclDownEx.exS1 InclDownEx.exS2 [(5, 6)] 10).map (·.1) = some true :=
+  ⟨by decide, rfl, rfl, rfl, rfl, rfl, rfl⟩
+
+/-! ### "every implemented parameter selection": the dispatcher -/
+
+/-- the `switch` of `ExplicitTreeAutCore::CheckInclusion`, as regenerated from the sources: (1) exactly the eight option
+words `UP_NOSIM`, `UP_SIM`, `DOWN_NONREC_NOSIM`, `DOWN_NONREC_SIM`, `DOWN_REC_NOSIM`, `DOWN_REC_SIM`, `DOWN_REC_OPT_NOSIM`,
+`DOWN_REC_OPT_SIM` have a case, no word twice; (2) every other word reaches `default`, which throws; (3) in every case
+the callee matches the direction / recursion / cache bits of the word (upward ↦ `explUp`, downward non-recursive ↦
+`explDownNonrec`, downward recursive ↦ `downRec` with the plain resp. the `Opt` functor); (4) a case with the simulation
+bit passes the given relation and the original operands, a case without it the identity and the sanitised copies;
+(5) the named option words are the bit combinations their names say -/
+theorem C01_dispatch (c : Gen.Case) (hc : c ∈ Gen.explDispatch) :
+    Dispatch.sameWords (Dispatch.words Gen.explDispatch) [0, 16, 2, 18, 10, 26, 14, 30] = true ∧
+    (Dispatch.words Gen.explDispatch).Nodup ∧
+    Gen.explDispatchDefaultThrows = true ∧
+    Dispatch.treeConsistent c = true ∧ Dispatch.simConsistent c = true ∧
+    (Gen.namedWords.lookup "ANTICHAINS_UP_NOSIM" = some 0 ∧
+      Gen.namedWords.lookup "ANTICHAINS_UP_SIM" = some Dispatch.fSim ∧
+      Gen.namedWords.lookup "ANTICHAINS_DOWN_NONREC_NOSIM" = some Dispatch.fDir ∧
+      Gen.namedWords.lookup "ANTICHAINS_DOWN_NONREC_SIM" = some (Dispatch.fDir ||| Dispatch.fSim) ∧
+      Gen.namedWords.lookup "ANTICHAINS_DOWN_REC_NOSIM" = some (Dispatch.fDir ||| Dispatch.fRec) ∧
+      Gen.namedWords.lookup "ANTICHAINS_DOWN_REC_OPT_NOSIM" = some (Dispatch.fDir ||| Dispatch.fRec ||| Dispatch.fCache) ∧
+      Gen.namedWords.lookup "ANTICHAINS_DOWN_REC_SIM" = some (Dispatch.fDir ||| Dispatch.fRec ||| Dispatch.fSim) ∧
+      Gen.namedWords.lookup "ANTICHAINS_DOWN_REC_OPT_SIM" =
+        some (Dispatch.fDir ||| Dispatch.fRec ||| Dispatch.fCache ||| Dispatch.fSim)) := by
+  have ht := Dispatch.tree_consistent
+  have hs := Dispatch.sim_consistent
+  simp only [List.all_append, Bool.and_eq_true, List.all_eq_true] at ht hs
+  have hn := Dispatch.named_words
+  exact ⟨Dispatch.implemented_expl, Dispatch.no_duplicate_cases.1, Dispatch.default_throws.1, ht.1.1 c hc, hs.1.1.1 c hc,
+    hn.1, hn.2.1, hn.2.2.1, hn.2.2.2.1, hn.2.2.2.2.1, hn.2.2.2.2.2.1, hn.2.2.2.2.2.2.1, hn.2.2.2.2.2.2.2.1⟩
+
+example : (⟨"ANTICHAINS_DOWN_REC_OPT_SIM", 30, "downRec", "OptDownwardInclusionFunctor", "-", "false", "given"⟩ : Gen.Case) ∈
+    Gen.explDispatch := by decide
+-- the consistency predicates are not trivially true: a case that sanitises although the simulation bit is set, or that
+-- calls the upward code for a downward word, is refused
+example : Dispatch.simConsistent ⟨"X", 16, "explUp", "-", "-", "true", "given"⟩ = false ∧
+    Dispatch.treeConsistent ⟨"X", 2, "explUp", "-", "-", "true", "identity"⟩ = false := by decide
+
 /-!
 ## not yet proved
 
-* Executable models of the **downward** selections (`ExplicitDownwardInclusion::expand`: non-recursive; recursive with
-  and without the implication cache `childrenCache`/`nonincluded`) do not exist yet; only the principle they rest on
-  (`C01_certificates`, second component) is proved.  Hence "the downward verdict is exact" is not a theorem about a
-  model of the code; it is covered by the correspondence check against `C01_reference_exact` only.
-* The selections **with a simulation preorder** (upward with the upward-compatible downward simulation on the disjoint
-  union, downward with the downward simulation): the model `inclUp` instantiates the identity relation only.  Soundness
-  of pruning modulo a simulation is not proved.
+* The selection **upward with a simulation** (`ANTICHAINS_UP_SIM`: the upward-compatible downward simulation on the
+  disjoint union used to prune macro-states and antichain comparisons) has no model: `inclUp` instantiates the identity
+  relation only.  Soundness of upward pruning modulo a simulation is not proved.  It is the only one of the eight
+  implemented selections (`C01_dispatch`) without an exact model; it is covered by the correspondence check against
+  `C01_reference_exact` only.
+* **"With or without the implication cache"**: the model of the `Opt` functor is the model of the plain functor by
+  definition (`C01_downward_cache_same_computation`, first component is `rfl`).  That `OptDownwardInclusionFunctor`
+  never fills its cache `incl_` is an argument about the C++ source (header of `Vata/InclDown.lean`), not a theorem.
+* **The downward `Sim` selections outside their preconditions.**  Every verdict is exact unconditionally
+  (`C01_downward_sim_exact`), but a verdict is only guaranteed when the given relation passes the validation (a downward
+  simulation on the disjoint union, operands with disjoint states), the rule children of the smaller operand are
+  productive and – for the non-recursive variant – the relation is transitive.  The C++ passes the caller's relation and
+  the caller's operands through unchecked (`C01_dispatch`, item 4); on the prepared operands with the computed relation
+  all preconditions hold (`C01_downward_prepared_exact`).  That the relation the C++ `ComputeSimulation` returns is
+  `downSimRef` of the union is C04.
+* **Link between the dispatch table and the models.**  `C01_dispatch` is about the table regenerated from the sources;
+  which Lean model stands for which callee of the table is the reading given in the header, not a theorem.
+* The non-recursive algorithm's **call emulator** (explicit stack of frames, `EXPAND_CALL` / `EXPAND_RETURN` macros) is
+  modelled by recursion (`InclDown.expandN`); the address-keyed caches and hash-container iteration orders are replaced by
+  value comparison and list order.  `C01_downward_verdict_certified` is stated for `inclDownRec`; the analogous shape
+  statement for the other three verdict functions follows from the same `finish` but is not spelled out.
 * No totality theorem for the reference deciders `inclM`/`inclRef` (they return `none` on too little fuel; every
-  `some` is exact).
+  `some` is exact).  The fuel bounds of the models (`fuelBound`, `fuelBoundD`) are exponential worst-case bounds, not
+  tight.
 -/
 end Vata.Props
